@@ -253,7 +253,8 @@ fn run_strong_families(e: &Sexp) -> R<Sexp> {
 
 /// (spec taken_predicates placeholders)
 fn gen_proof_outline(rng: &mut Rng) -> Sexp {
-    let known: &[(&str, usize)] = &[("in", 1), ("out", 1), ("q", 1), ("r", 0)];
+    // sometimes the task also has a renamed private predicate (`q_p`, see ExternalEquivalenceTask)
+    let known: &[(&str, usize)] = if rng.chance(75) { &[("in", 1), ("out", 1), ("q", 1), ("r", 0)] } else { &[("in", 1), ("out", 1), ("q", 1), ("r", 0), ("q_p", 1)] };
     let spec = t::outline(rng, known, 4);
     let mut taken: Vec<fol::Predicate> = known.iter().map(|(p, n)| fol::Predicate { symbol: p.to_string(), arity: *n }).collect();
     if rng.chance(10) {
@@ -560,9 +561,32 @@ fn gen_external_task(rng: &mut Rng) -> ExternalEquivalenceTask {
     let user_guide = fol::UserGuide { entries };
 
     // proof outline
+    // The predicates of the task as they occur in the EMITTED problems: public predicates, private
+    // predicates of both sides, and - for a private predicate p/n shared by both sides - the name
+    // p_p/n the program side's copy gets from `rename_predicates`.  Outline lemmas talk about them
+    // (that is what `_p` names are for); outline definitions must not be allowed to define them.
+    let renamed: Vec<(String, usize, bool)> =
+        priv_prog.iter().chain(priv_spec.iter()).map(|(p, n)| (format!("{p}_p"), *n, priv_prog.contains(&(*p, *n)) && priv_spec.contains(&(*p, *n)))).collect();
+    let shared_renamed: Vec<(&str, usize)> = renamed.iter().filter(|x| x.2).map(|(p, n, _)| (p.as_str(), *n)).collect();
     let mut known: Vec<(&str, usize)> = pub_preds.clone();
     known.extend(priv_prog.iter().cloned());
-    let proof_outline = if rng.chance(45) { t::outline(rng, &known, 3) } else { fol::Specification { formulas: vec![] } };
+    if rng.chance(50) {
+        known.extend(shared_renamed.iter().cloned());
+    }
+    if rng.chance(25) {
+        known.extend(priv_spec.iter().cloned().filter(|x| !priv_prog.contains(x)));
+    }
+    // definition targets that are not fresh names: the renamed names twice (most interesting), every
+    // task predicate, the other side's private predicates, `_p` names of unshared private predicates
+    // (nothing is renamed to them: acceptable unless they exist)
+    let mut tempting: Vec<(&str, usize)> = known.clone();
+    tempting.extend(priv_spec.iter().cloned());
+    tempting.extend(shared_renamed.iter().cloned());
+    tempting.extend(shared_renamed.iter().cloned());
+    tempting.extend(renamed.iter().map(|(p, n, _)| (p.as_str(), *n)));
+    // tasks with a renamed private predicate get an outline more often
+    let with_outline = rng.chance(if shared_renamed.is_empty() { 45 } else { 65 });
+    let proof_outline = if with_outline { t::outline_with(rng, &known, &tempting, 65, 3) } else { fol::Specification { formulas: vec![] } };
     let _ = violations;
 
     ExternalEquivalenceTask {
